@@ -145,7 +145,9 @@ func refEncodeStruct(st *RStruct, v *RVal, out []byte) []byte {
 	if v == nil || v.Nil {
 		return append(out, 0) // nil non-optional struct => empty struct
 	}
-	for i := range st.Fields {
+	nf := len(st.Fields)
+	for j := 0; j < nf; j++ {
+		i := fieldOrder(j, nf)
 		f := &st.Fields[i]
 		fv := v.F[i]
 		if refOmitted(f, fv) {
@@ -420,4 +422,18 @@ func refEqualStruct(st *RStruct, a, b *RVal) bool {
 		ok = vrt.And(ok, vrt.BytesEq(a.Unknown, b.Unknown))
 	}
 	return ok
+}
+
+// encOrder selects the order in which the reference encoder writes the fields of every struct
+// (a foreign writer may use any order): 0 ascending id, 1 descending, k>=2 rotated by k-1.
+var encOrder = 0
+
+func fieldOrder(j, n int) int {
+	switch {
+	case encOrder == 0:
+		return j
+	case encOrder == 1:
+		return n - 1 - j
+	}
+	return (j + encOrder - 1) % n
 }
